@@ -46,6 +46,7 @@ type c07Case struct {
 	Slots []string `json:"slots"` // values of the request's component slots ("\x01" = benign default)
 	Raw   []byte   `json:"raw"`   // kind rawpath: the raw path field
 	Own   bool     `json:"own"`   // the requester's account has its own file root (configured with a trailing slash)
+	Uni   bool     `json:"uni"`   // the requester's own file root has a name that is not ASCII ("Rööt")
 }
 
 const benign = "\x01"
@@ -104,6 +105,14 @@ func c07Files(root string) {
 	_ = os.WriteFile(filepath.Join(cfg, ".info_Rroot"), []byte(c07Marker+" info fork name of r's root"), 0644)
 	_ = os.WriteFile(filepath.Join(cfg, ".rsrc_Rroot"), []byte(c07Marker+" rsrc fork name of r's root"), 0644)
 	_ = os.WriteFile(filepath.Join(cfg, "Rroot.incomplete"), []byte(c07Marker+" partial name of r's root"), 0644)
+	// the private file root of account n: a directory name that is not ASCII
+	nr := filepath.Join(cfg, "Rööt")
+	_ = os.MkdirAll(filepath.Join(nr, "dir", "deep"), 0755)
+	_ = os.WriteFile(filepath.Join(nr, "a.txt"), []byte("0123456789"), 0644)
+	_ = os.WriteFile(filepath.Join(nr, "dir", "inner.txt"), []byte("inner"), 0644)
+	_ = os.WriteFile(filepath.Join(nr, "dir", "deep", "leaf.txt"), []byte("leaf"), 0644)
+	_ = os.MkdirAll(filepath.Join(nr, "Uploads"), 0755)
+	_ = os.MkdirAll(filepath.Join(nr, "other"), 0755)
 }
 
 // c07Outside: snapshot of the sandbox without the file root's contents and without the accounts
@@ -145,6 +154,9 @@ func c07Run(w *explore.Worker, c c07Case) {
 		if c.Own {
 			own = "own-root/"
 		}
+		if c.Uni {
+			own = "non-ascii-root/"
+		}
 		w.Violation("C07/"+own+c.Kind+"/"+clause+"/pos="+strings.Join(hostilePos, "+"), fmt.Sprintf("case %s: %s", js(c), detail), len(hostilePos)*100+len(js(c)), c)
 	}
 	seqChecked(w, "C07", c.Kind, c, func() {
@@ -153,12 +165,16 @@ func c07Run(w *explore.Worker, c c07Case) {
 			Files:         c07Files,
 			Accounts: []world.Acct{{Login: "guest", Name: "Guest"}, {Login: "u", Name: "u", Password: "pw", Access: world.AllAccess},
 				{Login: "r", Name: "r", Password: "pw", Access: world.AllAccess, FileRoot: "$CONFIG/Rroot/"},
+				{Login: "n", Name: "n", Password: "pw", Access: world.AllAccess, FileRoot: "$CONFIG/Rööt"},
 				{Login: "vic", Name: "Victim", Password: "vp", Access: world.Bits(ref.PReadChat)}},
 		})
 		defer wd.Close()
 		login, rootName := "u", "Files"
 		if c.Own {
 			login, rootName = "r", "Rroot"
+		}
+		if c.Uni {
+			login, rootName = "n", "Rööt"
 		}
 		u, r := wd.Connect("10.0.0.1:1001", login, "pw", "u")
 		if r == nil || r.Err != 0 {
@@ -391,6 +407,25 @@ func c07Cases(thorough bool) []c07Case {
 				sl := append([]string(nil), base...)
 				sl[i] = h
 				cs = append(cs, c07Case{Kind: kind, Slots: sl, Own: true})
+			}
+		}
+	}
+	// the same for an account whose file root has a non-ASCII name: benign form, the empty name and ".."
+	for _, kind := range c07KindOrder {
+		if strings.HasPrefix(kind, "acct") {
+			continue
+		}
+		slots := c07Kinds[kind]
+		base := make([]string, len(slots))
+		for i := range base {
+			base[i] = benign
+		}
+		cs = append(cs, c07Case{Kind: kind, Slots: append([]string(nil), base...), Uni: true})
+		for i := range slots {
+			for _, h := range []string{"", "..", "../canary.txt"} {
+				sl := append([]string(nil), base...)
+				sl[i] = h
+				cs = append(cs, c07Case{Kind: kind, Slots: sl, Uni: true})
 			}
 		}
 	}
